@@ -964,7 +964,7 @@ fn xof_plan(id: &str, seed: u64) -> Option<crate::checks_c11::Plan11> {
 }
 
 fn exec_xof_plan(id: &'static str, p: &crate::checks_c11::Plan11, counters: &mut Counters) -> Result<RunOut, String> {
-    let mut out = crate::checks_c11::exec_top_with(p, counters, &["C11.rejections", "panic"])?;
+    let mut out = crate::checks_c11::exec_top_with(p, counters, &["C11.rejections", "C11.reference_run", "panic"])?;
     if let Some(v) = out.violation.as_mut() {
         v.oracle = v.oracle.replace("C11.", &format!("{id}."));
     }
@@ -984,7 +984,14 @@ pub fn exec_plan_a(id: &'static str, accept: &'static [&'static str], plan: &Pla
     match r {
         Err(e) => Err(e),
         Ok(Ok(r)) => r,
-        Ok(Err(BuildErr::Refused(e))) => Err(format!("generator produced an instance the constructor refuses: {:?}: {e}", plan.inst)),
+        Ok(Err(BuildErr::Refused(e))) => {
+            // the generators only produce admissible instances: a refusal is the library's
+            let mut c = Counters::default();
+            let mut ctx = Ctx::new(&mut c, accept);
+            ctx.nontrivial = true;
+            ctx.fail(Violation::new(&format!("{}.instance_refused", honest_id(&plan.inst)), format!("ctor|{}", plan.inst.class), format!("the constructor refuses the admissible instance {:?}: {e}", plan.inst)));
+            Ok(ctx.finish())
+        }
         Ok(Err(BuildErr::Panic(v))) => {
             // a constructor panic on generated (in-domain) parameters is a violation, reported if accepted
             let mut c = Counters::default();
